@@ -87,7 +87,7 @@ func runC03(c *core.Ctx) {
 			if isNil(arg) {
 				continue
 			}
-			okk, ds := descAll(c, arg, "GetRPCError")
+			okk, ds := descAll(c, arg, "GetRPCError", "fld(RegionRequestSender.rpcError,")
 			a.check(okk, fname(commitH)+" setUndeterminedErr arg", ci, "argument is the sender's RPC error", fmt.Sprintf("argument is not rooted in GetRPCError(): %v", ds))
 		}
 	}
@@ -250,7 +250,7 @@ func runC03(c *core.Ctx) {
 				a.ok(key, drop.Blocks[0].Instrs[0], "err≠nil ∧ (async ∨ 1PC) ∧ RPC error ∧ not cancelled ⇒ setUndeterminedErr on every path")
 			}
 			for _, ci := range core.FindCalls(drop, core.CallsTo(setU)) {
-				okk, ds := descAll(c, argOf(ci, 0), "GetRPCError")
+				okk, ds := descAll(c, argOf(ci, 0), "GetRPCError", "fld(RegionRequestSender.rpcError,")
 				a.check(okk, fname(drop)+" setUndeterminedErr arg", ci, "argument is the sender's RPC error", fmt.Sprintf("argument not rooted in GetRPCError(): %v", ds))
 			}
 			// drop must be called on every exit of the prewrite batch handler with the error returned
